@@ -2,6 +2,7 @@
    built-in it stands for (`harness/prelude_check.py`). -/
 import OQ.Exec.Proto
 import OQ.Exec.Py
+import OQ.Exec.PyT18  -- --- T18
 open Lean OQ.Proto
 namespace OQ.PY.Driver
 open OQ.Py
@@ -342,6 +343,30 @@ def handle (op : String) (j : Json) : Except String Json := do
                       ("zeros", matR (npZerosLike2 (ν := Rat) e)), ("add", matR (npAdd2 e sc)), ("div", matR (npDivInt2 sc k)),
                       ("sub", vecR (npSub1 u v)), ("dot", ratToJson (npDot1 u v)), ("matvec", vecR (npMatVec sq v))])
   -- --- end T16
+  -- --- T18: sets of objects with their own `__hash__` / `__eq__` (hash = v // 4, eq = |v - w| <= 1: not transitive), the key check of
+  -- `PauliTerm(d, c)`, `sorted` of (index, letter) tuples, `reduce` without initial value, `int.bit_length`
+  | "t18_set" =>
+    let xs ← listOfJson intOfJson (← field j "xs"); let ys ← listOfJson intOfJson (← field j "ys")
+    let heq : Int → Int → Bool := fun a b => Int.fdiv a 4 == Int.fdiv b 4
+    let eq : Int → Int → Bool := fun a b => decide ((a - b).natAbs ≤ 1)
+    let A := setOfListBy heq eq xs
+    let B := setOfListBy heq eq ys
+    pure (Json.mkObj [("set", intsToJson A), ("eq", Json.bool (setEqBy heq eq A B)),
+                      ("mem", Json.arr (ys.map (fun v => Json.bool (setMemBy heq eq v A))).toArray)])
+  | "t18_keys" =>
+    let d ← listOfJson t7ent (← field j "d")
+    pure (excJ4 (fun (r : Dict Nat String) => Json.arr (r.map (fun p => Json.arr #[intJ p.1, Json.str p.2])).toArray) (natKeysE d))
+  | "t18_sorted" =>
+    let d ← listOfJson t7ent (← field j "d")
+    let ord : String → Int := fun s => match s.toList with | c :: _ => (c.toNat : Int) | [] => -1
+    pure (Json.arr ((sortedItemsBy ord (d.map (fun p => (p.1.toNat, p.2)))).map (fun p => Json.arr #[intJ p.1, Json.str p.2])).toArray)
+  | "t18_reduce" =>
+    let xs ← listOfJson intOfJson (← field j "xs")
+    pure (excJ4 intJ (reduce1E (fun a b => 3 * a - b) xs))
+  | "t18_bits" =>
+    let n ← intOfJson (← field j "n")
+    pure (intJ (bitLength n))
+  -- --- end T18
   | _ => throw s!"unknown prelude op {op}"
 
 end OQ.PY.Driver
